@@ -1,7 +1,7 @@
 (* Props/C06.v -- property C06: "Schema defaults are reproduced exactly, or rejected when
    the schema is added".  Only the property theorems; models in Algo/Defaults.v and
    Algo/Value.v (mirroring /repo AFTER the fix: commits 9891d21, dc9ac49, 9117497, cd15928,
-   07af100, 31ec69c, 15ce314, a08c818), proofs in Proofs/DefaultsProofs.v.
+   07af100, 31ec69c, 15ce314, a08c818, fd85c79), proofs in Proofs/DefaultsProofs.v.
 
    Outcomes of the models: ROk = Ok/Some, RErr = Err(InvalidValue)/None, RPanic = a Rust
    panic (unwrap of a missing id, unreachable!()), RFuel = the MODEL ran out of fuel.
@@ -64,11 +64,24 @@ Proof. exact unit_null_optional. Qed.
    variant identifiers (unit, newtype, tuple incl. one-element, struct variants).
    [defaults_validated re T dok] is what check_defaults establishes for every property default at finalisation.
    PARTIAL w.r.t. the full statement: untagged enums (output_value may pick an EARLIER variant than the one that
-   validated), flattened struct / Option<struct> members, recursive types (tfrag bounds the type depth). *)
+   validated), flattened struct / Option<struct> members, recursive types: tfrag bounds the type depth and never re-enters
+   a struct / enum inside the rendering of one of its own member defaults -- the side condition "no member default
+   re-enters itself" of fix fd85c79, decidable; on re-entry the member is rendered `Default::default()` (Value.v). *)
 Theorem C06_default_typed_partial : forall re T g dok, defaults_validated re T dok ->
   forall n f t d k,
-  validate_value re T f t d = ROk k -> tfrag T g dok n t = true ->
+  validate_value re T f t d = ROk k -> tfrag T g dok [] n t = true ->
   exists e, output_value T n t d = ROk e /\ expr_typed T g e t = true.
+Proof.
+  intros re T g dok Hd n f t d k H Hf. unfold output_value.
+  exact (tfrag_typed re T g dok Hd n f [] [] t d k (fun i v nm (Hin : In (i, v, nm) []) => match Hin with end) H Hf).
+Qed.
+
+(* the same under any FILLING stack (fix fd85c79) whose owners the fragment avoids: while the default of a member of
+   struct / enum t is being rendered, t is not re-entered, so no member default is met while already in progress *)
+Theorem C06_default_typed_fill : forall re T g dok, defaults_validated re T dok ->
+  forall n f filling avoid t d k, owners_in filling avoid ->
+  validate_value re T f t d = ROk k -> tfrag T g dok avoid n t = true ->
+  exists e, output_fill T n filling t d = ROk e /\ expr_typed T g e t = true.
 Proof. intros re T g dok Hd n. exact (tfrag_typed re T g dok Hd n). Qed.
 
 (* ex C06_default_typed_tuple1_variant_refuted (finding C06-F13, fixed by 15ce314): the former witness is now
@@ -88,7 +101,9 @@ Proof. exact tuple1_variant_example. Qed.
    default is a JSON value with unique object keys ([wf_json], what serde_json produces), member defaults were
    validated ([defaults_validated_wf], check_defaults).
    RESIDUE (not proved, per-run model-vs-serde agreement only): flattened members, maps, the enum taggings, natives,
-   JsonValue, recursive types (xfrag bounds the type depth). *)
+   JsonValue, recursive types (xfrag bounds the type depth).  Exactness needs NO re-entry side condition: a member
+   default met while already in progress (fix fd85c79) is rendered `Default::default()`, which [eval_expr] leaves out and
+   [approx] does not constrain (the member is absent from d); [xfrag_exact_fill] is the statement for any FILLING stack. *)
 Theorem C06_default_exact_partial : forall re T dok, named_ok T -> defaults_validated_wf re T dok ->
   forall n f t d k,
   validate_value re T f t d = ROk k -> wf_json d = true -> xfrag T dok n t = true ->
@@ -164,8 +179,8 @@ Example C06_nonvacuous_exact :
 Proof. split; [exact named_ok_Tf12|]. repeat split; vm_compute; reflexivity. Qed.
 
 Example C06_nonvacuous_frag :
-  tfrag Tw 3 dok0 3 3 = true /\ tfrag Tw 3 dok0 3 6 = true /\ tfrag Tw 3 dok0 3 7 = true /\ tfrag Tw 3 dok0 3 10 = true /\
-  tfrag Tw 3 dok0 3 12 = true /\ tfrag Tw 3 dok0 3 9 = true /\ tfrag Tf12 3 dok0 3 2 = true /\ efrag Tw 3 3 = true /\ efrag Tw 3 6 = true /\
+  tfrag Tw 3 dok0 [] 3 3 = true /\ tfrag Tw 3 dok0 [] 3 6 = true /\ tfrag Tw 3 dok0 [] 3 7 = true /\ tfrag Tw 3 dok0 [] 3 10 = true /\
+  tfrag Tw 3 dok0 [] 3 12 = true /\ tfrag Tw 3 dok0 [] 3 9 = true /\ tfrag Tf12 3 dok0 [] 3 2 = true /\ efrag Tw 3 3 = true /\ efrag Tw 3 6 = true /\
   validate_value re0 Tw 3 3 (JArr [JInt 3]) = ROk KSpecific.
 Proof. repeat split; vm_compute; reflexivity. Qed.
 
